@@ -38,6 +38,36 @@ def check(repo, col, tier):
     _write_back(repo, col)
     _pair(repo, col)
     _tojax(repo, col)
+    col.rule("R-C10-derived", "derived parameters are computed from the overridden values", 1)
+    derived_after_overrides(repo, col, "R-C10-derived")
+
+
+def derived_after_overrides(repo, col, R):
+    """get_all_parameters: the axial conductances are a function of radius / length / resistivity.  They must be computed
+    from the parameter dictionary AFTER the values given at simulation time (make_trainable / data_set) were written into
+    it; computed earlier, the coupling uses the old geometry while area and capacitance use the new one (charge is not
+    conserved, gradients w.r.t. geometry miss the coupling)."""
+    fi = repo.method("Module", "get_all_parameters")
+    body = fi.node.body
+    calls, stores = [], []
+    for i, st in enumerate(body):
+        for n in ast.walk(st):
+            if isinstance(n, ast.Call) and isinstance(n.func, ast.Attribute) and n.func.attr == "_compute_axial_conductances":
+                calls.append((i, n))
+            if isinstance(n, ast.Assign):
+                for t in n.targets:
+                    if isinstance(t, ast.Subscript) and isinstance(t.value, ast.Name) and t.value.id == "params" and \
+                            not (isinstance(t.slice, ast.Constant) and t.slice.value == "axial_conductances"):
+                        stores.append((i, n))
+    if not calls or not stores:
+        raise AnalysisError("get_all_parameters: computation of the axial conductances / parameter stores not found")
+    ic, c = calls[-1]
+    arg_ok = any(isinstance(a, ast.Name) and a.id == "params" for a in list(c.args) + [k.value for k in c.keywords])
+    late = [n for i, n in stores if i > ic]
+    col.check(arg_ok and not late, R, fi, "axial conductances are computed from `params` after every other entry was written",
+              "last statement before return",
+              f"`{unparse(c)[:60]}` runs before `{unparse(late[0])[:60] if late else ''}`: geometry given through make_trainable / data_set "
+              f"does not reach the coupling conductances", node=c)
 
 
 # --------------------------------------------------------------------------------------
